@@ -350,10 +350,12 @@ func (p *asyncProducer) dispatcher() {
 				continue
 			}
 			p.inFlight.Add(1)
-		}
 
-		for _, interceptor := range p.conf.Producer.Interceptors {
-			msg.safelyApplyInterceptor(interceptor)
+			// interceptors see each submitted message once, on its first pass; retried
+			// messages and the internal fin markers come through here again with retries > 0
+			for _, interceptor := range p.conf.Producer.Interceptors {
+				msg.safelyApplyInterceptor(interceptor)
+			}
 		}
 
 		version := 1
